@@ -5,7 +5,7 @@ modifies the /repo working tree while it runs and restores it afterwards."""
 import json, os, re, subprocess, sys, time
 
 VERIF = os.path.dirname(os.path.dirname(os.path.abspath(__file__)))
-EXTRA = {'C01': ['C14'], 'C13-1': ['C18'], 'C14': ['C01'], 'C07': ['C08'], 'C07-3': ['C10', 'C04'], 'C07-4': ['C04'], 'C20-5': ['C05'], 'C18-4': ['C13']}
+EXTRA = {'C01': ['C14'], 'C13-1': ['C18'], 'C14': ['C01'], 'C07': ['C08'], 'C07-3': ['C10', 'C04'], 'C07-4': ['C04'], 'C20-5': ['C05'], 'C18-4': ['C13'], 'C19-6': ['C09'], 'C09-6': ['C11'], 'C19-5': ['C18'], 'C07-5': ['C03']}
 NEEDS = {}
 import shutil, tempfile
 BACKUP = tempfile.mkdtemp()
